@@ -49,7 +49,10 @@ Garbage == 999    \* what a proof with a flipped node recomputes
 AppHash == Multi
 AppHash2 == Multi2
 
-Pf(k, v, r, sp) == [k |-> k, v |-> v, r |-> r, sp |-> sp]
+\* conf: the leaf / inner operations of the proof follow the ProofSpec of the tree format `sp` (leaf prefix, hash,
+\* prehash_key, prehash_value and length operations; inner-op hash, prefix and suffix lengths).  An honestly produced
+\* proof conforms.
+Pf(k, v, r, sp) == [k |-> k, v |-> v, r |-> r, sp |-> sp, conf |-> TRUE]
 Op(ty, key, pf) == [ty |-> ty, key |-> key, pf |-> pf]     \* ty: declared type of the op
 
 \* existence proofs that exist in the two worlds (a valid proof can only be produced for a pair that is in the tree)
@@ -72,8 +75,16 @@ SetValue(p, v)  == IF p = PA /\ v = VF THEN PA2
                    ELSE [p EXCEPT !.v = v, !.r = Garbage]
 SetKey(p, k)    == [p EXCEPT !.k = k, !.r = Garbage]   \* key rewritten inside the proof: the leaf hash changes
 
+\* Operations that do NOT follow the ProofSpec can cut the bytes a tree really commits to
+\* (prefix | len(key) | key | len(hash(value)) | hash(value)) differently: same recomputed root, same key, but a
+\* "value" that was never stored (VS1: leaf without value pre-hash and length prefix; VS2: leaf without hash plus an
+\* inner operation splicing the rest).
+VS1 == 41
+VS2 == 42
+Reslice(p, vs) == [p EXCEPT !.v = vs, !.conf = FALSE]
+
 \* ---- algorithmic layer: ProofChain::verify_membership -------------------
-VerifyPf(p, spec, root, key, value) == p.sp = spec /\ p.r = root /\ p.k = key /\ p.v = value
+VerifyPf(p, spec, root, key, value) == p.conf /\ p.sp = spec /\ p.r = root /\ p.k = key /\ p.v = value
 
 SpecOf(ty) == IF ty = "ics23:iavl" THEN "iavl" ELSE IF ty = "ics23:simple" THEN "simple" ELSE "none"
 
@@ -111,7 +122,7 @@ Linked(value, root) == value # 0 /\ value = Committed(root)
 \* builds the real bytes from the recipe, the model computes the abstract proof from it
 Base(b) == CASE b = "PA" -> PA [] b = "PB" -> PB [] b = "PA2" -> PA2 [] b = "PM" -> PM [] b = "PM2" -> PM2 [] b = "PX" -> PX
 Val(x)  == CASE x = "VA" -> VA [] x = "VB" -> VB [] x = "VF" -> VF [] x = "Bank" -> Bank [] x = "Bank2" -> Bank2
-                [] x = "AppHash2" -> Multi2 [] x = "zero" -> 0
+                [] x = "AppHash2" -> Multi2 [] x = "zero" -> 0 [] x = "VS1" -> VS1 [] x = "VS2" -> VS2
 Key(x)  == CASE x = "KA" -> KA [] x = "KB" -> KB [] x = "KBank" -> KBank
 Root(x) == IF x = "AppHash" THEN AppHash ELSE AppHash2
 
@@ -120,6 +131,7 @@ PfOf(rc) == CASE rc.tamper = "none"     -> Base(rc.base)
               [] rc.tamper = "flip"     -> FlipNode(Base(rc.base))
               [] rc.tamper = "setvalue" -> SetValue(Base(rc.base), Val(rc.arg))
               [] rc.tamper = "setkey"   -> SetKey(Base(rc.base), Key(rc.arg))
+              [] rc.tamper = "reslice"  -> Reslice(Base(rc.base), Val(rc.arg))
 OpOf(rc) == Op(rc.ty, Key(rc.key), PfOf(rc))
 
 Pool == {
@@ -137,6 +149,8 @@ Pool == {
     Recipe("ics23:simple", "KBank", "PM", "flip", ""),
     Recipe("ics23:simple", "KBank", "PM", "setvalue", "Bank2"),   \* forged bank root spliced into the honest multistore proof
     Recipe("ics23:iavl", "KBank", "PM", "none", ""),
+    Recipe("ics23:iavl", "KA", "PA", "reslice", "VS1"),           \* ops off the ProofSpec, hashing to the committed root
+    Recipe("ics23:iavl", "KA", "PA", "reslice", "VS2"),
     Recipe("ics23:simple", "KBank", "PX", "none", ""),            \* existence op whose value is the forged app root
     Recipe("ics23:simple", "KBank", "PM", "setvalue", "AppHash2") \* ... the same, written into the honest multistore proof
 }
@@ -145,8 +159,9 @@ SeqsUpTo(S, k) == UNION {[1..m -> S] : m \in 0..k}
 \* The node chooses the whole response, including the `key` field it echoes (rkey).  The client asked for KA: neither
 \* the verification (which must use the locally built key) nor the demanded verdict depends on the echoed key, so a
 \* client that verifies the echoed key instead (another account's key, value and valid proof) is caught by Demand.
-Cases == [ops : SeqsUpTo(Pool, 3), value : {"VA", "VB", "VF", "zero"}, root : {"AppHash", "AppHash2"},
-          rkey : {"KA", "KB"}]
+Values == {"VA", "VB", "VF", "zero", "VS1", "VS2"}
+Cases == [ops : SeqsUpTo(Pool, 3), value : Values, root : {"AppHash", "AppHash2"}, rkey : {"KA"}]
+         \cup [ops : SeqsUpTo(Pool, 2), value : Values, root : {"AppHash", "AppHash2"}, rkey : {"KB"}]
 
 AbsOps(c) == [i \in 1..Len(c.ops) |-> OpOf(c.ops[i])]
 Honest(c) == \/ c.value = "VA" /\ c.root = "AppHash"
@@ -154,11 +169,17 @@ Honest(c) == \/ c.value = "VA" /\ c.root = "AppHash"
              \/ c.value = "VF" /\ c.root = "AppHash2"
                 /\ c.ops = <<Recipe("ics23:iavl", "KA", "PA2", "none", ""), Recipe("ics23:simple", "KBank", "PM2", "none", "")>>
 VerdictOf(c) == Verdict(AbsOps(c), Val(c.value), Root(c.root))
+\* ProofChain::verify_membership itself (the empty-value shortcut is the caller's)
+MechVerdictOf(c) == LET ops == AbsOps(c) IN
+    IF ops = <<>> THEN "err-noproof"
+    ELSE IF \E j \in 1..Len(ops) : SpecOf(ops[j].ty) = "none" THEN "err-spec"
+    ELSE Walk(ops, <<KA, KBank>>, Root(c.root), 1, Val(c.value))
 
 \* demanded verdict: 1 = must be reported as verified (honest answer), 0 = must not, 2 = either
 Demand(c) == IF Honest(c) THEN 1 ELSE IF Linked(Val(c.value), Root(c.root)) THEN 2 ELSE 0
 
 \* ---- the property on the model ------------------------------------------
-Sound(c)    == Reported(VerdictOf(c)) => Linked(Val(c.value), Root(c.root))
+Sound(c)    == /\ Reported(VerdictOf(c)) => Linked(Val(c.value), Root(c.root))
+               /\ MechVerdictOf(c) = "ok" => Linked(Val(c.value), Root(c.root))
 Complete(c) == Honest(c) => VerdictOf(c) = "ok"
 =============================================================================
